@@ -92,7 +92,7 @@ def gen_case(run_seed, tier):
     sz = stream(run_seed, "sizes")
     wl = stream(run_seed, "workload")
     ne = sz.randint(1, 3)
-    np_ = sz.randint(0, min(3, 6 - ne))
+    np_ = sz.randint(0, min(3, 6 - ne)) if tier != "thorough" else sz.randint(0, min(4, 7 - ne))
     nc = sz.randint(1, 3)
     length = sz.randint(1, 40 if tier == "thorough" else 24)
     allow_ins = sz.random() < 0.5
@@ -114,7 +114,7 @@ def gen_case(run_seed, tier):
         # a sibling circuit compiled first with the *same compiler objects*: a compile must not depend on what the
         # compiler compiled before (same total register count but another emitter/photon split when possible)
         total = ne + np_
-        splits = [(e, total - e) for e in range(1, 4) if 0 <= total - e <= 3 and (e, total - e) != (ne, np_)]
+        splits = [(e, total - e) for e in range(1, 4) if 0 <= total - e <= 4 and (e, total - e) != (ne, np_)]
         ne2, np2 = sz.choice(splits) if splits and sz.random() < 0.7 else (sz.randint(1, 3), sz.randint(0, 3))
         case["sibling"] = {"ne": ne2, "np": np2, "nc": nc, "history": gen_program(wl, ne2, np2, nc, sz.randint(1, 8), False, None, 0.3)}
     return case
